@@ -24,11 +24,11 @@ out = {
         "add_only": True,
     },
     "engines": [
-        {"name": "E1-enum", "path": "harness/*/ (per-property enumerators) + engine/report", "kind_free_text": "bounded-exhaustive enumeration of inputs / operation sequences on the real functions against a reference model"},
-        {"name": "E2-sched", "path": "engine/vsched engine/vsync engine/explore engine/e2 cmd/verifinst", "kind_free_text": "cooperative scheduler over real goroutines + iterative-context-bounding DFS (stateless model checking of the implementation); source instrumented through go build -overlay"},
-        {"name": "E3-xstate", "path": "engine/xstate", "kind_free_text": "explicit-state BFS over event histories replayed on fresh real objects, canonical-state de-duplication"},
-        {"name": "E4-crash", "path": "engine/crash", "kind_free_text": "crash-image enumeration at every file-system operation boundary + byte-level torn-tail enumeration"},
-        {"name": "E5-fault", "path": "engine/fault", "kind_free_text": "exhaustive fault placement over numbered inter-node calls"},
+        {"name": "E1-enum", "path": "harness/*/c*.go (per-property enumerators) + engine/report", "kind_free_text": "bounded-exhaustive enumeration of inputs / operation sequences on the real functions against a reference model"},
+        {"name": "E2-sched", "path": "engine/vsched engine/vsync engine/vclock engine/explore engine/e2 engine/par cmd/verifinst", "kind_free_text": "cooperative scheduler over real goroutines + iterative-context-bounding / delay-bounded DFS (stateless model checking of the implementation); source instrumented through go build -overlay"},
+        {"name": "E3-xstate", "path": "harness/chord/c08.go harness/chord/c02.go harness/chordlib harness/overlay harness/tunsrv/c26.go harness/kvseq/c19.go", "kind_free_text": "explicit-state search over event histories replayed on fresh real objects (canonical-state de-duplication), and the C41 protocol model with table extraction + trace replay on real QUIC transports"},
+        {"name": "E4-crash", "path": "engine/vos harness/kvcrash harness/client/c45.go tools/third_party.sh", "kind_free_text": "crash-image enumeration before every mutating file-system / VFS operation + byte-level torn-tail enumeration, recovery by the real code"},
+        {"name": "E5-fault", "path": "harness/chordlib/net.go harness/chord/c07.go", "kind_free_text": "exhaustive fault placement (fail before delivery / lose response, error kind) over numbered inter-node calls"},
     ],
     "checks": [],
     "not_applicable": [],
